@@ -5,6 +5,7 @@ import (
 	"strings"
 	"testing"
 	"time"
+	"verif/gen/bytesgen"
 )
 
 const dump = `goroutine 1 [running]:
@@ -125,5 +126,46 @@ github.com/open2b/scriggo/internal/compiler/types.(*Types).Zero(0x47a7c5?, {0x98
 	want = "compiler/types.(*Types).Zero:runtime: out of memory: cannot allocate N-byte block (N in use)"
 	if got != want {
 		t.Errorf("crashSig(oom) = %q, want %q", got, want)
+	}
+}
+
+func TestHugeArray(t *testing.T) {
+	for src, want := range map[string]bool{
+		"var b [LARGE]int":         true,
+		"var b [1<<32]int":         true,
+		"var b [1 << 40]byte":      true,
+		"var b [10000000000]byte":  true,
+		"var b [10]int":            false,
+		"x := a[1<<3]":             false,
+		"var b [1<<20]int":         false,
+		"{{ a[i] }} [x](http://y)": false,
+	} {
+		in := bytesgen.Input{Files: []bytesgen.File{{Name: "main.go", Data: []byte(src)}}}
+		if got := hugeArray(&in); got != want {
+			t.Errorf("hugeArray(%q) = %v, want %v", src, got, want)
+		}
+	}
+}
+
+func TestRaceSig(t *testing.T) {
+	rep := `WARNING: DATA RACE
+Write at 0x00c0001a2058 by goroutine 7:
+  github.com/open2b/scriggo/internal/compiler.(*lexer).Stop()
+      /repo/internal/compiler/lexer.go:68 +0x3a
+  github.com/open2b/scriggo/internal/compiler.parseSource.func1()
+      /repo/internal/compiler/parser.go:191 +0x44
+
+Previous read at 0x00c0001a2058 by goroutine 8:
+  runtime.chansend1()
+      /go/src/runtime/chan.go:161 +0x0
+  github.com/open2b/scriggo/internal/compiler.(*lexer).emitAtLineColumn()
+      /repo/internal/compiler/lexer.go:135 +0x12d
+
+Goroutine 7 (running) created at:
+  main.main()
+`
+	want := "compiler.(*lexer).Stop|compiler.(*lexer).emitAtLineColumn"
+	if got := raceSig(rep); got != want {
+		t.Errorf("raceSig = %q, want %q", got, want)
 	}
 }
